@@ -1,5 +1,6 @@
 import Swim.Util.Parse
 import Swim.Model.Merge
+import Swim.Model.Cluster
 /-!
 Driver side of the merge-rule step harness (C01 C02 C07 C08 C18): replays a history on the
 model, compares every post-state and effect list, and evaluates the property predicate of
@@ -84,16 +85,26 @@ def canonTimers (n : Node) : List CTimer :=
 def kindStr : Kind → String
   | .alive => "a" | .suspect => "s" | .dead => "d"
 
-/-- events in order; broadcasts net of same-name replacement, sorted -/
-def canonOuts (outs : List Out) : List String :=
-  let evs := outs.filterMap fun o => match o with
+def vsnStr (v : List Nat) : String := if v.isEmpty then "-" else String.intercalate "." (v.map toString)
+
+/-- events in order; broadcasts net of same-name replacement, sorted. An alive broadcast is rendered
+with the content of the claim handed to the network (`Swim.Cluster.emit`): address, port, metadata,
+versions - compared with the decoded entry of the implementation's broadcast queue. -/
+def canonOuts (outs : List (Out × List Swim.Cluster.Msg)) : List String :=
+  let evs := outs.filterMap fun o => match o.1 with
     | .join n a p m => some s!"j/{n}/{a}/{p}/{m}"
     | .update n m => some s!"u/{n}/{m}"
     | .leave n => some s!"l/{n}"
     | .conflict n a p => some s!"c/{n}/{a}/{p}"
     | _ => none
-  let bs := outs.filterMap fun o => match o with
-    | .bcast q k nd i f nt => some (q, s!"b/{q}/{kindStr k}/{nd}/{i}/{if f == "" then "-" else f}/{if nt then 1 else 0}")
+  let bs := outs.filterMap fun o => match o.1 with
+    | .bcast q k nd i f nt =>
+      let base := s!"b/{q}/{kindStr k}/{nd}/{i}/{if f == "" then "-" else f}/{if nt then 1 else 0}"
+      let content := match k, o.2 with
+        | .alive, [.alive a] => s!"/{a.addr}/{a.port}/{a.md}/{vsnStr a.vsn}"
+        | .alive, _ => "/?"
+        | _, _ => ""
+      some (q, base ++ content)
     | _ => none
   -- keep the last broadcast per queue name
   let net := bs.foldl (fun (acc : List (String × String)) b => (acc.filter (·.1 != b.1)) ++ [b]) []
@@ -369,7 +380,7 @@ def handleHist (prop : String) (fs : List (String × String)) : String := Id.run
       match fresh.find? (·.node == nd) with
       | some t => ghost := ghost.push (t.node, t.changedAt)
       | none => pure ()
-    let mOuts := canonOuts outs
+    let mOuts := canonOuts (Swim.Cluster.stepEmit node po.op)
     if canonRecs node' != post.recs || canonTimers node' != post.timers || node'.selfInc != post.selfInc ||
        node'.score != post.score || node'.numNodes != post.numNodes || node'.hasLeft != post.hasLeft || mOuts != post.outs then
       if agree then
